@@ -97,6 +97,10 @@ def _shard_main(mod, prop, tier, seed, shard, nshards, out, only_case=None):
     deadline = t0 + plan.get("shard_budget_s", 3600)
     if hasattr(mod, "setup"):
         mod.setup(ctx)
+    anchors = anchor_files(prop)
+    if anchors and os.environ.get("VERIF_COVMON", "1") != "0":
+        from . import covmon
+        covmon.start(REPO, anchors)
     indices = [only_case] if only_case is not None else range(shard, n, nshards)
     for i in indices:
         if time.time() > deadline:
@@ -120,7 +124,12 @@ def _shard_main(mod, prop, tier, seed, shard, nshards, out, only_case=None):
             break
     if hasattr(mod, "teardown"):
         mod.teardown(ctx)
+    reach = {}
+    if anchors and os.environ.get("VERIF_COVMON", "1") != "0":
+        from . import covmon
+        reach = covmon.stop()
     res = {
+        "reach": reach,
         "counters": dict(ctx.counters),
         "fingerprints": sorted(ctx.fingerprints),
         "nontrivial": sorted(ctx.nontrivial),
@@ -131,6 +140,17 @@ def _shard_main(mod, prop, tier, seed, shard, nshards, out, only_case=None):
     }
     with open(out, "w") as f:
         json.dump(res, f, default=str)
+
+
+def anchor_files(prop):
+    try:
+        for l in open(os.path.join(VERIF, "properties.jsonl")):
+            p = json.loads(l)
+            if p["id"] == prop:
+                return [f for f in p["anchors"]["files"] if f.endswith(".py")]
+    except OSError:
+        pass
+    return []
 
 
 def load_findings():
@@ -241,6 +261,8 @@ def main(mod):
             merged["samples"] += r["samples"]
             merged["violations"] += r["violations"]
             inconclusive += r.get("inconclusive", [])
+            for pth, ls in r.get("reach", {}).items():
+                merged.setdefault("reach", {}).setdefault(pth, set()).update(ls)
     import shutil
     shutil.rmtree(tmpd, ignore_errors=True)
     try:
@@ -316,6 +338,9 @@ def main(mod):
         "violations_attributed_to_known_findings": dict(attributed),
         "inconclusive_reasons": inconclusive[:10],
     }
+    if merged.get("reach"):
+        from . import covmon
+        cov.update(covmon.summarise(REPO, merged["reach"]))
     if hasattr(mod, "extra_coverage"):
         cov.update(mod.extra_coverage(c))
     ev = {
